@@ -435,6 +435,7 @@ mutual
       if metas.isEmpty || !decide (metas.map (·.urn)).Nodup then none
       else some (metas, some (rows.filter fun r => decide (from_ ≤ r.ts ∧ r.ts < to)))
     | .filtered ds fs => (semR fixD22 from_ to ds).bind (filtersR O fixD22 fs)
+    | .xfiltered _ _ => none            -- stream filters (aligner) are outside the reference semantics (C13/C16 own them)
     | .join jt srcs =>
       (semRL fixD22 from_ to srcs).bind fun results =>
         (joinMetasRef jt (results.map (·.1))).map fun metas =>
@@ -453,6 +454,7 @@ mutual
         match res.1 with
         | [fm] => filtersR O true (liftFilters fm.urn fs) res
         | _ => none
+    | .xfiltered _ _ => none            -- stream filters (aligner / delta / rate): C13, C15, C16 own them
     | .reduction _ _ _ _ _ => none      -- the reduction datasource is outside the reference semantics (C14 owns it)
     | .fromReport r urn =>
       (semR fixD22 from_ to r).bind fun res =>
@@ -461,11 +463,13 @@ mutual
             ([fm], res.2.map fun rows => rows.map fun row => { ts := row.ts, vals := [(row.vals[idx]?).getD .nil] })
 end
 
-/- does the tree contain a reduction datasource (not covered by the reference semantics)? -/
+/- does the tree contain a reduction datasource or a stream filter (aligner / delta / rate) — the constructors that
+are not covered by the reference semantics? -/
 mutual
   def hasReductionR : RDs D → Bool
     | .static _ _ => false
     | .filtered ds _ => hasReductionR ds
+    | .xfiltered _ _ => true
     | .join _ srcs => hasReductionRL srcs
     | .fromDs ds => hasReductionD ds
   def hasReductionRL : RDsL D → Bool
@@ -474,6 +478,7 @@ mutual
   def hasReductionD : DDs D → Bool
     | .static _ _ => false
     | .filtered ds _ => hasReductionD ds
+    | .xfiltered _ _ => true
     | .reduction _ _ _ _ _ => true
     | .fromReport r _ => hasReductionR r
 end
